@@ -100,6 +100,27 @@ def rule_kind(ctx, py):
     aug = [n for n in ast.walk(f) if isinstance(n, ast.AugAssign) and isinstance(n.op, ast.Add) and
            isinstance(n.target, ast.Subscript)]
     ctx.need(len(aug) >= 2, R, "coarsegrain_system: aggregation statements not found")
+    # every retained cell contributes its amount and its flag: the only condition on an aggregation statement is the test that
+    # the cell is kept (index_map[i] != -1)
+    seen = {}
+
+    def on_stmt(node, cfg):
+        if any(node is a_ for a_ in aug):
+            seen[id(node)] = cfg
+    from .. import ir
+
+    class _C(pya.PyFacts):
+        inline_fn = f
+    ir.Engine(_C(on_stmt), "must").run(ir.py_to_ir(f.body))
+    for a in aug:
+        extra = sorted(("" if pol else "not ") + t for t, pol in seen.get(id(a), ()) if isinstance(t, str) and
+                       not t.startswith("iter:") and "index_map" not in t and
+                       not (not pol and t.replace(" ", "") in (pyfe.src(a.value).replace(" ", "") + "==0",
+                                                                "0==" + pyfe.src(a.value).replace(" ", ""))) and not any(
+                           t.startswith(pre) for pre in ("0 <= ",)) and " < " not in t)
+        ctx.check(not extra, R, a, f._qual, pyfe.src(a)[:70] + " (unconditional for kept cells)", "every kept cell contributes",
+                  "the contribution of a cell is skipped under `%s`: amounts or chemostat flags of such cells are left out of "
+                  "their group" % "; ".join(extra)[:120], nontrivial=False)
     for a in aug:
         srcs = [s_ for s_ in ast.walk(a.value) if isinstance(s_, ast.Subscript)]
         ctx.need(len(srcs) == 1, R, "aggregation right-hand side is not one element")
@@ -439,6 +460,10 @@ def run(ctx):
     rule_uncg(ctx, py)
     rule_cgscript(ctx, py)
     rule_uncg_traj(ctx, py)
+    # the graph built from the grid reaches the engine in the same units as the grid would: every number of _setup_graph
+    # and _setup_grid is converted to the one engine units system (shared with C04.BOUNDARY)
+    from . import c04
+    c04.rule_boundary(ctx, py, ctx.cx, "C16.BOUNDARY")
     from .. import lints
     lints.run(ctx, "C16", ctx.py, ["simulate", "coarsegrain"], truth_floor=3)
     ctx.assume("conservation totals, centroid distances and identity-map equivalence are value-level and not decided")
